@@ -24,6 +24,7 @@ def run(ctx):
     sr.sh6(ctx, shapes)     # no text slot of a new URL ever receives None
     sr.sh7(ctx, shapes)     # no possibly-None value is handed to a parameter declared str/int
     sr.ex6(ctx)             # attributes read from a caught exception exist on the caught class
+    sr.ex7(ctx)             # every name a function reads is bound somewhere
     sr.sh3(ctx)
     sr.ex_rules(ctx, shapes)
     sr.ex3_acyclic(ctx, shapes)
